@@ -47,3 +47,7 @@ package symbolizer
 //@   ensures keeps_name: old(fn.Name) != "" ==> fn.Name != ""
 //@   ensures names_only: fn.SystemName == old(fn.SystemName) && fn.ID == old(fn.ID) && fn.Filename == old(fn.Filename) && fn.StartLine == old(fn.StartLine)
 //@   ensures only_fn: forall g *profile.Function :: g != fn ==> g.Name == old(g.Name)
+
+// C12: a mapping that already carries symbols is only re-symbolized when force is set
+//@ func doLocalSymbolize nosafety
+//@   callsite symbolizeOneMapping unless_symbolized: force || !(m.HasFunctions || m.HasFilenames || m.HasLineNumbers)
